@@ -267,6 +267,132 @@ def drain (fuel : Nat) (w : World) : World × Option Exc :=
       | .ok _ _ => drain fuel { w with executed := w.executed + 1 }
 end
 
+/-- reactions of the wrapped component: in-event `(port, ev)` ↦ out-event `(port', ev')` raised while handling it -/
+abbrev Reactions := List ((Str × Str) × (Str × Str))
+
+/-- the reaction registered for an in-event, with the arity of the out-event (none if it does not exist) -/
+def reactionOf (rx : Reactions) (w : World) (port ev : Str) : Option (Str × Str × Nat) :=
+  match rx.lookup (port, ev) with
+  | none => none
+  | some (oport, oev) =>
+    match w.allPorts.find? (fun pi => pi.1.name = oport) with
+    | none => none
+    | some (_, itf) =>
+      match itf.events.find? (fun e => e.name = oev) with
+      | none => none
+      | some e => some (oport, oev, e.formals.length)
+
+mutual
+/-- `invoke` for a wrapped component that REACTS: while it handles the in-event `(port, ev)` it raises the
+    out-event `rx (port, ev)` on its own port object (arguments 0) before it returns — as Dezyne components do.
+    With no reactions this is `invoke` (theorem `SemReact.invokeR_nil`). -/
+def invokeR (rx : Reactions) (fuel : Nat) (w : World) (s : RSlot) (args : List Val) : World × Res :=
+  match fuel with
+  | 0 => (w, .exc (.runtimeError (L "fuel")))
+  | fuel + 1 =>
+    match w.get s with
+    | none => (w, .exc .badFunctionCall)
+    | some (.scripted who port ev) =>
+      let (w', r, a') := scriptedRun w who port ev args
+      match (if who == .comp then reactionOf rx w' port ev.name else none) with
+      | none => (w', .ok r a')
+      | some (oport, oev, n) =>
+        -- the nested out-event; an exception of the nested call is caught and logged by the mock component
+        let (w'', r2) := invokeR rx fuel w' { obj := .enc oport, dir := .out, ev := oev } (List.replicate n 0)
+        match r2 with
+        | .exc e => (w''.emit (L "nested exc " ++ e.str), .ok r a')
+        | .ok _ _ => (w'', .ok r a')
+    | some (.noop ev) => (w, .ok (if isVoid ev then none else some 0) args)
+    | some (.ir h ev cid cmv) =>
+      match h with
+      | .ref t => invokeR rx fuel w (resolveSlot t cmv cid) args
+      | .shell callee ps callArgs _byVal =>
+        -- dzn::shell: everything pending runs first, then the lambda, in dispatcher context
+        let w := { w with shellCalls := w.shellCalls + 1, pumpTouched := true }
+        match drainR rx fuel w with
+        | (w, some e) => (w, .exc e)
+        | (w, none) =>
+          match evalArgs ps args callArgs with
+          | none => (w, .exc (.runtimeError (L "ill-formed-call")))
+          | some cargs =>
+            let old := w.inDispatch
+            let (w, r) := invokeR rx fuel { w with inDispatch := true } (resolveSlot callee cmv cid) cargs
+            let w := { w with inDispatch := old, executed := w.executed + 1 }
+            match r with
+            | .exc e => (w, .exc e)
+            | .ok rep after => (w, .ok (if isVoid ev then none else rep) (writeBack ps args callArgs after))
+      | .post callee ps callArgs byVal =>
+        match evalArgs ps args callArgs with
+        | none => (w, .exc (.runtimeError (L "ill-formed-call")))
+        | some cargs =>
+          let dangling := callArgs.any (fun a => !byVal.contains a)
+          ({ w with posted := w.posted + 1, pumpTouched := true,
+                    queue := w.queue ++ [{ callee := resolveSlot callee cmv cid, args := cargs, dangling }] },
+           .ok none args)
+      | .mcDeliver mv evName ps callArgs =>
+        match w.selector mv with
+        | none => (w, .exc (.runtimeError (L "no-selector")))
+        | some sel =>
+          match sel.selected with
+          | none => (w, .ok none args)
+          | some id =>
+            match evalArgs ps args callArgs with
+            | none => (w, .exc (.runtimeError (L "ill-formed-call")))
+            | some cargs =>
+              let (w, r) := invokeR rx fuel w { obj := .client mv id, dir := .out, ev := evName } cargs
+              match r with
+              | .exc e => (w, .exc e)
+              | .ok _ _ => (w, .ok none args)
+      | .mcClaim mv evName ps callArgs _grant =>
+        match evalArgs ps args callArgs with
+        | none => (w, .exc (.runtimeError (L "ill-formed-call")))
+        | some cargs =>
+          let (w, r) := invokeR rx fuel w { obj := .arb mv, dir := .in_, ev := evName } cargs
+          match r with
+          | .exc e => (w, .exc e)
+          | .ok rep after =>
+            let granted : Bool := match rep, w.grantIndex with
+              | some v, some g => decide (v = (g : Int))
+              | _, _ => false
+            let w := if granted then
+                match w.selector mv with
+                | some sel => w.setSelector (sel.select cid)
+                | none => w
+              else w
+            (w, .ok rep (writeBack ps args callArgs after))
+      | .mcRelease mv _ev calledEv ps callArgs =>
+        match evalArgs ps args callArgs with
+        | none => (w, .exc (.runtimeError (L "ill-formed-call")))
+        | some cargs =>
+          let (w, r) := invokeR rx fuel w { obj := .arb mv, dir := .in_, ev := calledEv } cargs
+          match r with
+          | .exc e => (w, .exc e)
+          | .ok _ after =>
+            let w := match w.selector mv with
+              | some sel => w.setSelector (sel.deselect cid)
+              | none => w
+            (w, .ok none (writeBack ps args callArgs after))
+
+/-- `pump.run()`: execute the queued closures FIFO in dispatcher context; an exception leaves the
+    drain (the throwing closure is consumed, the rest stays queued) -/
+def drainR (rx : Reactions) (fuel : Nat) (w : World) : World × Option Exc :=
+  match fuel with
+  | 0 => (w, none)
+  | fuel + 1 =>
+    match w.queue with
+    | [] => (w, none)
+    | c :: rest =>
+      let w := { w with queue := rest }
+      if c.dangling then (w, some .dangling) else
+      let old := w.inDispatch
+      let (w, r) := invokeR rx fuel { w with inDispatch := true } c.callee c.args
+      let w := { w with inDispatch := old }
+      match r with
+      | .exc e => (w, some e)
+      | .ok _ _ => drainR rx fuel { w with executed := w.executed + 1 }
+end
+
+
 def fuel0 : Nat := 64
 
 /-! ### construction of a world -/
@@ -485,6 +611,7 @@ structure Machine where
   grantIndex : Option Nat
   world : Option World := none
   replies : List ((Bool × Str × Str) × Val) := []
+  rx : Reactions := []
   out : List Str := []
   deriving Inhabited
 
@@ -528,12 +655,18 @@ def step (m : Machine) (line : Str) : Machine :=
           | none => m
         m.emit (L "reply ok")
       | _ => m.emit (L "err usage")
+    else if op = L "react" then
+      -- react <port> <in-ev> <out-port> <out-ev>: the component raises the out-event while it handles the in-event
+      match rest with
+      | [port, ev, oport, oev] =>
+        ({ m with rx := ((port, ev), (oport, oev)) :: m.rx.filter (·.1 ≠ (port, ev)) }).emit (L "react ok")
+      | _ => m.emit (L "err usage")
     else if op = L "world" then
       let kvs := rest.map kv
       let flag := fun (k : String) => (kvs.lookup k.toList) = some (L "1")
       let name := (kvs.lookup (L "name")).getD []
       let skip := (kvs.lookup (L "skipcomp")).bind parseSlotSpec
-      let m := { m with world := none, replies := [] }
+      let m := { m with world := none, replies := [], rx := [] }
       match construct m.ir m.allPorts m.grantIndex (flag "pump") (flag "runtime") skip name (flag "extra") with
       | .error e => m.emit (L "world exc " ++ e.str)
       | .ok w =>
@@ -601,7 +734,7 @@ def step (m : Machine) (line : Str) : Machine :=
           | (w, none) => (m.absorb w).emit (L "final ok parent=" ++ (if parent then L "1" else L "0"))
         else if op = L "pump" then
           let before := w.executed
-          match drain fuel0 w with
+          match drainR m.rx fuel0 w with
           | (w, some e) => (m.absorb w).emit (L "pump exc " ++ e.str ++ L " executed=" ++ natToStr (w.executed - before))
           | (w, none) => (m.absorb w).emit (L "pump executed=" ++ natToStr (w.executed - before))
         else if op = L "ids" then
@@ -647,7 +780,7 @@ def step (m : Machine) (line : Str) : Machine :=
                 | .error e => m.emit e
                 | .ok slot =>
                   let w0 := { w with pumpTouched := false }
-                  let (w1, r) := invoke fuel0 w0 slot args
+                  let (w1, r) := invokeR m.rx fuel0 w0 slot args
                   match r with
                   | .exc e => (m.absorb w1).emit (L "exc " ++ e.str)
                   | .ok rep after => (m.absorb w1).emit (retLine w0 w1 rep after)
